@@ -31,6 +31,8 @@ type HarnessSpec struct {
 	ReplayFunc    string           `json:"replay_func,omitempty"` // native function to run for replay (default: Func)
 	ReplayPackage string           `json:"replay_package,omitempty"`
 	NoReplay      string           `json:"no_replay,omitempty"`   // reason why a counterexample cannot be replayed natively
+	ScheduleReplay bool            `json:"schedule_replay,omitempty"` // counterexamples are schedules: confirm by engine re-execution when the native (stress) replay misses
+	ReplayRuns    int              `json:"replay_runs,omitempty"`     // native replay runs the harness this many times (stress)
 	Bounds        string           `json:"bounds"`
 	What          string           `json:"what"`
 	QuickOnly     bool             `json:"quick_only,omitempty"`
@@ -227,6 +229,17 @@ func cmdCheck(args []string) int {
 			}
 			cfg.MaxViolations = 4
 			cfg.Seed = seed
+			// wall-clock budget per exploration: a run that exceeds it is INCONCLUSIVE, never a pass
+			limit := 15 * time.Minute
+			if tier == "thorough" {
+				limit = 60 * time.Minute
+			}
+			if d := os.Getenv("VERIF_DEADLINE_S"); d != "" {
+				if n, err := strconv.Atoi(d); err == nil {
+					limit = time.Duration(n) * time.Second
+				}
+			}
+			cfg.Deadline = time.Now().Add(limit)
 			cfg.Known = map[string]bool{}
 			for _, k := range known {
 				if k.Status != "open" {
@@ -284,19 +297,29 @@ func cmdCheck(args []string) int {
 		if st.Completed == 0 && len(st.Violations) == 0 {
 			inconclusive("no completed path")
 		}
-		for _, l := range h.Reach {
-			if st.Reached[l] == 0 {
-				inconclusive("reach-witness never hit: " + l)
-			}
+		reachedAll := map[string]int{}
+		for l, n := range st.Reached {
+			reachedAll[l] += n
 		}
+		// (reach witnesses are judged after the known-finding runs: a label may only be
+		// reachable on inputs that an open known finding sets aside)
 		// violations of the main run (known findings excluded by assumption)
 		for n, v := range st.Violations {
 			rp := writeReplay(vdir, id, h, v, params, n)
 			ok, out := nativeReplay(vdir, &spec, hdir, h, pkgPath, rp)
 			replays++
+			how := "replayed natively"
+			if !ok && h.ScheduleReplay {
+				// the counterexample is a goroutine schedule: confirm it by deterministic
+				// re-execution of its decision trace in the engine
+				if engineReplay(ld, fn, mkcfg(), v) {
+					ok = true
+					how = "schedule counterexample: re-executed deterministically by the engine (a native stress run did not hit the interleaving: " + lastLines(out, 1) + ")"
+				}
+			}
 			if ok {
 				fmt.Printf("VIOLATION property=%s replay=%s\n", id, rp)
-				fmt.Printf("  harness=%s kind=%s: %s\n  inputs: %s\n", h.Func, v.Kind, v.Msg, prettyJSON(v.Pretty))
+				fmt.Printf("  harness=%s kind=%s: %s\n  inputs: %s\n  confirmation: %s\n", h.Func, v.Kind, v.Msg, prettyJSON(v.Pretty), how)
 				verdict = "VIOLATION"
 				violations++
 				exit = 1
@@ -331,7 +354,7 @@ func cmdCheck(args []string) int {
 		}
 		// known findings identified by an input predicate in the harness: must still be there
 		for _, k := range known {
-			if k.Status != "open" || k.Harness != h.Func || k.MatchMsg != "" || k.MatchWhere != "" {
+			if k.Status != "open" || !st.KnownIDs[k.ID] || k.MatchMsg != "" || k.MatchWhere != "" {
 				continue
 			}
 			cfg2 := mkcfg()
@@ -340,21 +363,32 @@ func cmdCheck(args []string) int {
 			st2 := Explore(ld, fn, cfg2)
 			hr.Queries += st2.Queries
 			hr.SolverS += st2.SolverSeconds
+			for l, n := range st2.Reached {
+				reachedAll[l] += n
+			}
 			if len(st2.Violations) > 0 {
 				v := st2.Violations[0]
 				rp := writeReplay(vdir, id, h, v, params, 100+len(knownSeen))
 				ok, out := nativeReplay(vdir, &spec, hdir, h, pkgPath, rp)
 				replays++
 				if ok {
-					fmt.Printf("KNOWN-FINDING: property=%s %s [%s] e.g. %s\n", id, k.What, k.ID, prettyJSON(v.Pretty))
+					if !knownSeen[k.ID] {
+						fmt.Printf("KNOWN-FINDING: property=%s %s [%s] e.g. %s (harness %s)\n", id, k.What, k.ID, prettyJSON(v.Pretty), h.Func)
+					}
 					knownSeen[k.ID] = true
 				} else {
 					inconclusive(fmt.Sprintf("known finding %s did not reproduce natively: %s", k.ID, lastLines(out, 6)))
 				}
 			} else {
-				fmt.Printf("KNOWN-FINDING-GONE: property=%s [%s] no longer violated within the bound (%s)\n", id, k.ID, k.What)
+				fmt.Printf("KNOWN-FINDING-GONE: property=%s [%s] not violated within the bound of harness %s (%s)\n", id, k.ID, h.Func, k.What)
 			}
 		}
+		for _, l := range h.Reach {
+			if reachedAll[l] == 0 {
+				inconclusive("reach-witness never hit: " + l)
+			}
+		}
+		hr.Reached = reachedAll
 		// vacuity twin
 		if tier == "thorough" && !h.NoTwin && verdict == "HOLDS-WITHIN-BOUND" {
 			cfg3 := mkcfg()
@@ -464,13 +498,14 @@ type replayFileT struct {
 	Params   map[string]int64  `json:"params"`
 	Pretty   map[string]string `json:"pretty"`
 	Inputs   []string          `json:"inputs_in_creation_order"`
+	Trace    []Decision        `json:"decision_trace,omitempty"`
 }
 
 func writeReplay(vdir, id string, h HarnessSpec, v *Violation, params map[string]int64, n int) string {
 	dir := filepath.Join(vdir, "replay", id)
 	os.MkdirAll(dir, 0o755)
 	rp := filepath.Join(dir, fmt.Sprintf("%s-%d.json", h.Func, n))
-	rf := replayFileT{Property: id, Harness: h.Func, Kind: v.Kind, Msg: v.Msg, Where: v.Where, Model: v.Model, Params: params, Pretty: v.Pretty, Inputs: v.Inputs}
+	rf := replayFileT{Property: id, Harness: h.Func, Kind: v.Kind, Msg: v.Msg, Where: v.Where, Model: v.Model, Params: params, Pretty: v.Pretty, Inputs: v.Inputs, Trace: v.Trace}
 	b, _ := json.MarshalIndent(rf, "", " ")
 	os.WriteFile(rp, b, 0o644)
 	return rp
@@ -488,6 +523,10 @@ func nativeReplay(vdir string, spec *Spec, hdir string, h HarnessSpec, pkgPath, 
 	}
 	if h.ReplayPackage != "" {
 		pkgPath = h.ReplayPackage
+	}
+	if h.ReplayRuns > 1 {
+		os.Setenv("VERIF_RUNS", strconv.Itoa(h.ReplayRuns))
+		defer os.Unsetenv("VERIF_RUNS")
 	}
 	out, err := runNative(vdir, spec, hdir, pkgPath, fn, replayPath, "replay", 60)
 	_ = err
@@ -533,6 +572,8 @@ import (
 func TestVerifNative(t *testing.T) {
 	mode := os.Getenv("VERIF_MODE")
 	done := make(chan string, 1)
+	runs := 1
+	fmt.Sscan(os.Getenv("VERIF_RUNS"), &runs)
 	go func() {
 		defer func() {
 			if r := recover(); r != nil {
@@ -549,14 +590,17 @@ func TestVerifNative(t *testing.T) {
 				return
 			}
 		}()
-		%s()
+		for r := 0; r < runs || r == 0; r++ {
+			rt.Reset()
+			%s()
+		}
 		done <- "VERIF-REPLAY: NOT-REPRODUCED the harness returned normally"
 	}()
 	select {
 	case s := <-done:
 		fmt.Println(s)
-	case <-time.After(10 * time.Second):
-		fmt.Println("VERIF-REPLAY: REPRODUCED hang: the harness did not return within 10s")
+	case <-time.After(time.Duration(10+2*runs) * time.Second):
+		fmt.Println("VERIF-REPLAY: REPRODUCED hang: the harness did not return within its time limit")
 	}
 	_ = mode
 }
